@@ -124,6 +124,9 @@ pub enum Op {
     Flush { h: usize },
     /// `flush()` issued from inside a `for entry in cf.walk()` loop on the writer's own thread
     FlushInWalk { h: usize },
+    /// fault injection: the `after`-th next write call on the underlying file fails once
+    /// (`h` is unused; kept so that every op has a handle)
+    FailWrite { h: usize, after: u64 },
 }
 
 impl Op {
@@ -136,6 +139,7 @@ impl Op {
             | Op::SeekCur { h, .. }
             | Op::SetLen { h, .. }
             | Op::FlushInWalk { h }
+            | Op::FailWrite { h, .. }
             | Op::Flush { h } => h,
         }
     }
@@ -149,6 +153,7 @@ impl Op {
             | Op::SeekCur { h, .. }
             | Op::SetLen { h, .. }
             | Op::FlushInWalk { h }
+            | Op::FailWrite { h, .. }
             | Op::Flush { h } => *h = nh,
         }
         o
@@ -163,6 +168,7 @@ impl Op {
             Op::SetLen { h, n } => format!("set_len:{h}:{n}"),
             Op::Flush { h } => format!("flush:{h}"),
             Op::FlushInWalk { h } => format!("flush_in_walk:{h}"),
+            Op::FailWrite { h, after } => format!("fail_write:{h}:{after}"),
         }
     }
     pub fn parse(s: &str) -> Result<Op, String> {
@@ -179,6 +185,7 @@ impl Op {
             "set_len" => Op::SetLen { h, n: arg(2)?.parse().map_err(|_| bad())? },
             "flush" => Op::Flush { h },
             "flush_in_walk" => Op::FlushInWalk { h },
+            "fail_write" => Op::FailWrite { h, after: arg(2)?.parse().map_err(|_| bad())? },
             _ => return Err(bad()),
         })
     }
@@ -667,10 +674,20 @@ pub fn generate(
                 }
                 writer.push(Op::Write { h, n: n as usize });
             }
-            1 => writer.push(if rng.below(4) == 0 { Op::FlushInWalk { h } } else { Op::Flush { h } }),
+            1 => {
+                if rng.below(5) == 0 {
+                    // a write-back that fails once (the flush is expected to report it)
+                    writer.push(Op::FailWrite { h, after: rng.range(1, 12) });
+                    writer.push(Op::Flush { h });
+                }
+                writer.push(if rng.below(4) == 0 { Op::FlushInWalk { h } } else { Op::Flush { h } })
+            }
             2 => {
                 // cross the 4096 mini-stream cutoff about half of the time
-                let mut n = if (m.len < 4096) == (rng.below(2) == 0) {
+                let mut n = if rng.below(12) == 0 {
+                    // one call growing the stream by several MiB (must still be ONE step for readers)
+                    m.len + rng.range(2_300_000, 2_700_000)
+                } else if (m.len < 4096) == (rng.below(2) == 0) {
                     rng.range(4096, 12000)
                 } else {
                     rng.range(0, 4095)
